@@ -5,7 +5,7 @@ from hypothesis import strategies as st
 
 from .. import hist
 from ..engine import ok, require
-from ..simkit import ADDRS, ClientRec, Sim, cfg, make_sd, sd_bytes
+from ..simkit import ClientRec, Sim, cfg, make_sd, peer_addr, sd_bytes
 from ..vloop import RES
 from .c07 import ref_detect
 from .c19 import ref_match
@@ -14,10 +14,10 @@ PID = "C05"
 RULE = (
     "exhaustive: every history of bounded length over the alphabet {offer ttl 1, offer infinite, stop-offer, reboot+offer "
     "in one message, reboot-only message, connection lost, watch, unwatch} x timing prefixes {next TTL deadline -RES/4, "
-    "+RES/4, +0.5 s} for one service, one source, one listener; random: Hypothesis histories of 1..14 steps from 3 "
-    "sources (IPv4/IPv6), both channels, 8 concrete services, filters with every wildcard combination, watch/unwatch/"
+    "+RES/4, +0.5 s} for one service, one source, one listener; random: Hypothesis histories of 1..14 steps from 8 "
+    "sources (3 unrelated IPv4/IPv6 ones, 5 that differ from one of them only in scope id / flow label / port / host), 'crowd' steps in which 5..140 further peers send one message each, both channels, 8 concrete services, filters with every wildcard combination, watch/unwatch/"
     "watch-all of 4 listener objects, session counters that continue/reset/repeat, messages of 1..3 entries (offer TTL "
-    "from {1,2,3,0xFFFFFE,inf}, stop-offer, find), unicast flag clear, connection loss, steps timed by delays or relative "
+    "from {1,2,3,0xFFFFFE,inf}, stop-offer, find), one in two of them padded in front or behind with offers of 14..40 filler services, unicast flag clear, connection loss, steps timed by delays or relative "
     "to pending TTL timers with offsets -4RES/-RES/4/+RES/4/+4RES or in the same iteration as the previous step. "
     "non-trivial = reboot evidence with an offer in the same message, or a step within RES of a TTL deadline, or "
     "watch/unwatch while something is found; distinct = distinct case JSON"
@@ -37,6 +37,17 @@ EXHAUSTIVE = {"quick": "all 11^4 = 14641 histories of length 4 over the 8-event 
 W = [0xFFFF, 0xFF, 0xFFFFFFFF]
 SERVICES = [(s, i, m, n) for s in (0x1000, 0x2000) for i in (0x0101, 0x0102) for m in (1, 2) for n in (0x10000,)] + [(0x1000, 0x0101, 1, 0x10007)]
 INF = 0xFFFFFF
+NFILL = 64
+CROWD0 = 100
+
+
+def svc(i):
+    """service #i: the 9 services the filters are about, then filler services (to make messages of many entries)"""
+    if 0 <= i < len(SERVICES):
+        return SERVICES[i]
+    if len(SERVICES) <= i < len(SERVICES) + NFILL:
+        return (0x6000 + i, 1, 1, 0x10000)
+    return SERVICES[i % len(SERVICES)]
 
 # ----------------------------------------------------------------------------- enumeration
 ALPHA = ["o1", "oinf", "stop", "rb+o", "rb", "lost", "watch", "unwatch", "T-q", "T+q", "+0.5"]
@@ -106,11 +117,20 @@ def _entry(draw):
 
 @st.composite
 def _step(draw):
-    op = draw(st.sampled_from(["msg"] * 6 + ["watch", "watch", "unwatch", "watchall", "unwatchall", "lost"]))
+    op = draw(st.sampled_from(["msg"] * 12 + ["watch", "watch", "unwatch", "watchall", "unwatchall", "lost"] * 2 + ["crowd"]))
     s = {"op": op, "when": draw(when_st)}
+    if op == "crowd":
+        # `n` further peers send one SD message each (their next one)
+        s.update(n=draw(st.sampled_from([5, 17, 33, 70, 140])), mc=draw(st.booleans()))
     if op == "msg":
-        s.update(src=draw(st.integers(0, 2)), mc=draw(st.booleans()), entries=draw(st.lists(_entry(), min_size=1, max_size=3)),
+        # sources 0-2 are unrelated, 3-7 differ from one of them in one component of the socket address only
+        s.update(src=draw(st.sampled_from([0, 1, 2, 0, 1, 2, 0, 1, 2, 3, 4, 5, 6, 7])), mc=draw(st.booleans()), entries=draw(st.lists(_entry(), min_size=1, max_size=3)),
                  sess=draw(st.sampled_from(["next", "next", "next", "reset", "repeat"])))
+        pad = draw(st.sampled_from([0, 0, 0, 0, 0, 0, 14, 16, 20, 33, 40]))
+        if pad:
+            # a message of many entries: offers of `pad` filler services in front of or behind the entries above
+            fill = [{"t": "offer", "s": len(SERVICES) + j, "ttl": draw(st.sampled_from([INF, 3]))} for j in range(pad)]
+            s["entries"] = fill + s["entries"] if draw(st.booleans()) else s["entries"] + fill
         if draw(st.integers(0, 9)) == 0:
             s["unicast"] = False
     elif op in ("watch", "unwatch", "watchall", "unwatchall"):
@@ -175,11 +195,11 @@ class Model:
         if unicast:
             for e in entries:
                 if e["t"] == "offer":
-                    p = (src, SERVICES[e["s"] % len(SERVICES)])
+                    p = (src, svc(e["s"]))
                     self.live[p] = None if e["ttl"] == INF else now + e["ttl"]
                     self.last_offer[p] = idx
                 elif e["t"] == "stop":
-                    self.drop((src, SERVICES[e["s"] % len(SERVICES)]))
+                    self.drop((src, svc(e["s"])))
         return reboot
 
 
@@ -236,8 +256,17 @@ def run_case(case):
 
         def execute(i, s):
             op = s["op"]
-            if op == "msg":
-                src = ADDRS[s["src"] % len(ADDRS)]
+            if op == "crowd":
+                mc = bool(s.get("mc"))
+                for k in range(max(0, min(300, int(s.get("n", 0))))):
+                    src = peer_addr(CROWD0 + k)
+                    flag, sid = sess.get((src, mc), (True, 0))
+                    flag, sid = (flag, sid + 1) if sid < 0xFFFF else (False, 1)
+                    sess[(src, mc)] = (flag, sid)
+                    model.message(i, sim.now, src, mc, flag, sid, [], True)
+                    prot.datagram_received(sd_bytes([{"t": "find", "svc": 0x7777}], sid, reboot=flag), src, mc)
+            elif op == "msg":
+                src = peer_addr(s["src"] % 8)
                 mc = bool(s["mc"])
                 k = (src, mc)
                 flag, sid = sess.get(k, (True, 0))
@@ -255,7 +284,7 @@ def run_case(case):
                     if e["t"] == "find":
                         wire_entries.append({"t": "find", "svc": 0x7777})
                     else:
-                        sv = SERVICES[e["s"] % len(SERVICES)]
+                        sv = svc(e["s"])
                         e["ttl"] = max(1, min(INF, e.get("ttl", 1))) if e["t"] == "offer" else 0
                         wire_entries.append({"t": e["t"], "svc": sv[0], "inst": sv[1], "major": sv[2], "minor": sv[3], "ttl": e.get("ttl", 0)})
                 before_live = [p for p in model.live if p[0] == src]
